@@ -15,7 +15,7 @@ TolOf(c)  == Tol[RowOf(c).res]
 
 (* structural well-formedness of a Cfg event against the catalogue *)
 CfgOK(c) == /\ c.fam \in Families
-            /\ \A g \in {c.groups[i] : i \in 1..Len(c.groups)} : g \in {"EOS", "PDE", "ADM", "RH", "FIN", "INT", "BURN"}
+            /\ \A g \in {c.groups[i] : i \in 1..Len(c.groups)} : g \in {"EOS", "PDE", "ADM", "RH", "FIN", "INT", "BURN", "ELAS", "HEAT", "SUOL"}
 
 Groups(c) == {c.groups[i] : i \in 1..Len(c.groups)}
 
@@ -48,18 +48,21 @@ AmbientClauses(c, e) ==
    \cup Chk("AHEAD.u", e.v.u.s = 0) \cup Chk("AHEAD.p", e.v.p.s = 0)
   ELSE {}
 
-(* first-arrival (burn-time) laws, property C13: operands are term vectors; `eq` entries must balance,    *)
-(* `ineq` entries must sum to <= 0 (burn time not before the first detonation; |dt| <= |dx| / D between     *)
-(* consecutive points of a straight scan; a detonator is burnt no later than it fires)                     *)
-BurnClauses(c, e) ==
-  IF "BURN" \in Groups(c) /\ e.fin
-  THEN  UNION { Chk("BURN." \o n, Balanced(e.eq[n], 20 * TolOf(c).bal)) : n \in DOMAIN e.eq }
-   \cup UNION { Chk("BURN." \o n, Sum(e.ineq[n]) <= TolOf(c).bal) : n \in DOMAIN e.ineq }
+(* field laws as term vectors (C13 burn times, C14 heat, C15 Blake, C18 Su-Olson): `eq` entries must balance, *)
+(* `ineq` entries must sum to <= 0.  Which names exist for a family is fixed by Catalogue.FieldLaws; the      *)
+(* clause prefix is the law group of the scan.                                                               *)
+LawPrefix(c) == IF "BURN" \in Groups(c) THEN "BURN." ELSE IF "ELAS" \in Groups(c) THEN "ELAS."
+                ELSE IF "HEAT" \in Groups(c) THEN "HEAT." ELSE IF "SUOL" \in Groups(c) THEN "SUOL." ELSE "LAW."
+FieldClauses(c, e) ==
+  IF Groups(c) \cap {"BURN", "ELAS", "HEAT", "SUOL"} # {} /\ e.fin
+  THEN  Chk(LawPrefix(c) \o "unknown-law", DOMAIN e.eq \subseteq FieldLaws(c.fam).eq /\ DOMAIN e.ineq \subseteq FieldLaws(c.fam).ineq)
+   \cup UNION { Chk(LawPrefix(c) \o n, Balanced(e.eq[n], 20 * TolOf(c).bal)) : n \in DOMAIN e.eq }
+   \cup UNION { Chk(LawPrefix(c) \o n, Sum(e.ineq[n]) <= TolOf(c).bal) : n \in DOMAIN e.ineq }
   ELSE {}
 
 PtClauses(c, e) ==
   LET g == Groups(c) IN
-       AmbientClauses(c, e) \cup (IF Has(e, "ineq") THEN BurnClauses(c, e) ELSE {}) \cup
+       AmbientClauses(c, e) \cup (IF Has(e, "ineq") THEN FieldClauses(c, e) ELSE {}) \cup
        (IF "FIN" \in g THEN Chk("FIN", e.fin) ELSE {})
   \cup (IF e.fin /\ "EOS" \in g THEN EosClauses(c, e) ELSE {})
   \cup (IF e.fin /\ "PDE" \in g THEN PdeClauses(c, e) ELSE {})
